@@ -127,6 +127,17 @@ theorem C06_inspect_shape (n : Node) (info : Info) (h : inspect n = .ok info) :
           first | (cases h; rfl) | cases h
   all_goals cases h
 
+/-- the varsig headers the library announces and accepts ARE the ones the specification assigns to the four signature schemes
+(multicodec varsig 0x34, then the scheme — RSA 0x1205 + SHA-256 0x12 + 256 bytes, EdDSA 0xed, ES256K 0xe7 + SHA-256, ES256 0xd01200
++ SHA-256 — then DAG-CBOR 0x71): a hand-written expectation against the table regenerated from `varsig.go`. Without it the
+model would follow a changed table entry, and "the scheme announced in the header" would silently become another scheme. -/
+theorem C06_varsig_headers_are_the_specified_ones :
+    Ucan.Facts.varsigTable.lookup "RSA" = some [0x34, 0x85, 0x24, 0x12, 0x80, 0x02, 0x71] ∧
+    Ucan.Facts.varsigTable.lookup "Ed25519" = some [0x34, 0xed, 0x01, 0x71] ∧
+    Ucan.Facts.varsigTable.lookup "Secp256k1" = some [0x34, 0xe7, 0x01, 0x12, 0x71] ∧
+    Ucan.Facts.varsigTable.lookup "ECDSA" = some [0x34, 0x80, 0xa4, 0xc0, 0x06, 0x12, 0x71] ∧
+    Ucan.Facts.varsigTable.length = 4 := by decide
+
 /-- the tables and constants this property's theorems are stated over were READ OFF the current source on this run (a fact
 that can no longer be read is replaced by its expected value so that the model keeps compiling; it is then listed in
 `Facts.notExtracted` and this theorem fails) -/
